@@ -11,6 +11,7 @@
  */
 #include "tokenizer/tokenize_cleanup.h"
 
+#include "char_table.h"
 #include "chunk.h"
 #include "keywords.h"
 #include "log_rules.h"
@@ -694,6 +695,17 @@ void tokenize_cleanup()
                // Change tmp into a type so that space_needed() works right
                make_type(tmp);
                size_t num_sp = space_needed(tmp2, tmp);
+
+               // two words must not be joined ('const char' -> 'constchar'),
+               // whatever the spacing options say
+               if (  num_sp == 0
+                  && tmp2->Len() > 0
+                  && tmp->Len() > 0
+                  && CharTable::IsKw2(tmp2->GetStr()[tmp2->Len() - 1])
+                  && CharTable::IsKw2(tmp->GetStr()[0]))
+               {
+                  num_sp = 1;
+               }
 
                while (num_sp-- > 0)
                {
